@@ -1,6 +1,8 @@
 /- model driver for C14: one operation per input line, one canonical line out -/
 import Batchie.Model.DriverLoop
+import Batchie.Model.ScreenIO
+import Batchie.Model.ViewsIO
 
 open Batchie
 
-def main : IO Unit := DriverLoop.run []
+def main : IO Unit := DriverLoop.run [ScreenIO.handle, ViewsIO.handle]
